@@ -196,7 +196,12 @@ func genFragmentations(tier string, rng *rand.Rand, shard, nshards int, hooks in
 						emit(doOp(ex, hooks, fl, R, cutScript(rng, R, nil, true)))
 						// expected length candidates for this request are near these positions
 						around := []int{5, 8, 9, 11, 12, n - 1, n - 2, n - 8}
+						// the peer closes right after replying: the last fragment (or the whole reply) arrives together with EOF
+						emit(doOp(ex, hooks, fl, R, "e:"+hx(R)))
 						for _, c := range cutPositions(rng, n, tier, around) {
+							if c > 0 && c < n && rng.Intn(2) == 0 {
+								emit(doOp(ex, hooks, fl, R, "d:"+hx(R[:c])+";e:"+hx(R[c:])))
+							}
 							emit(doOp(ex, hooks, fl, R, cutScript(rng, R, []int{c}, false)))
 							if rng.Intn(3) == 0 {
 								emit(doOp(ex, hooks, fl, R, cutScript(rng, R, []int{c}, true)))
@@ -289,6 +294,17 @@ func genFaults(tier string, rng *rand.Rand, shard, nshards int, hooks int, emit 
 							}
 						}
 						// the caller's context is already cancelled: nothing the transport offers may turn into success
+						emit(doOp(ex, hooks, fl, R, "pcd"))
+						emit(doOp(ex, hooks, fl, R, "pcd;d:"+hx(R)))
+						emit(doOp(ex, hooks, fl, R, "cd"))
+						if n > 2 {
+							emit(doOp(ex, hooks, fl, R, "d:"+hx(R[:n/2])+";cd"))
+							emit(doOp(ex, hooks, fl, R, "d:"+hx(R[:1])+";t;cd;t"))
+						}
+						if kind != "s" {
+							emit(fmt.Sprintf("do %s %d %s ncf:%s - -", kind, hooks, fl, ex.reqSpec))
+							emit(fmt.Sprintf("do %s %d %s ncf:%s %s d:%s", kind, hooks, fl, ex.reqSpec, hx(R), hx(R)))
+						}
 						emit(doOp(ex, hooks, fl, R, "pc"))
 						emit(doOp(ex, hooks, fl, R, "pc;d:"+hx(R)))
 						if n > 2 {
@@ -388,6 +404,16 @@ func genC12(tier string, rng *rand.Rand, shard, nshards int, emit emitter) {
 						}
 						for t := 1; t <= 3; t++ {
 							corrupt = append(corrupt, append(append([]byte{}, R...), rbytes(rng, t)...))
+						}
+						// the two CRC bytes exchanged; the last two bytes rotated with the one before
+						if n >= 4 && R[n-1] != R[n-2] {
+							d := append([]byte{}, R...)
+							d[n-1], d[n-2] = d[n-2], d[n-1]
+							corrupt = append(corrupt, d)
+						}
+						// noise in FRONT of an otherwise valid frame (line noise, a stale byte of an earlier exchange)
+						for _, pre := range [][]byte{{0}, {0xff}, {0, 0x80}, {byte(u8(rng))}, rbytes(rng, 2), rbytes(rng, 3), {R[0]}} {
+							corrupt = append(corrupt, append(append([]byte{}, pre...), R...))
 						}
 						// five bytes that look like an exception (function byte with the high bit set), wrong CRC
 						ex5 := []byte{byte(u8(rng)), byte(0x80 | fc), byte(1 + rng.Intn(4)), byte(rng.Intn(256)), byte(rng.Intn(256))}
